@@ -563,6 +563,77 @@ func (sr *sessionRun) getAllDomains() {
 	}
 }
 
+// concurrentLookups: the Session used by several goroutines at once (the connection underneath
+// serialises requests and matches responses by message id), each looking up objects of several
+// domains in turn while the directory takes a few milliseconds over every domain search: each call
+// returns the text of the objectSid of the object it asked for.
+func (sr *sessionRun) concurrentLookups() {
+	type look struct {
+		name string
+		rid  int
+		want string
+	}
+	var looks []look
+	for _, h := range sr.d.heads {
+		if !h.principals || h.sid == nil {
+			continue
+		}
+		amb := 0
+		for _, o := range sr.d.heads {
+			if strings.EqualFold(refDomainOfDN(o.dn), refDomainOfDN(h.dn)) {
+				amb++
+			}
+		}
+		if amb != 1 {
+			continue
+		}
+		for _, rid := range []uint32{500, 501, 512, 1000, 1103, 1104, 9999} {
+			text := fmt.Sprintf("%s-%d", refSIDString(h.domainAuth, h.domainSubs), rid)
+			if objs := sr.d.objects[h.dn+"\x00"+text]; len(objs) == 1 {
+				looks = append(looks, look{refDomainOfDN(h.dn), int(rid), text})
+			}
+		}
+	}
+	doms := map[string]bool{}
+	for _, l := range looks {
+		doms[l.name] = true
+	}
+	if len(doms) < 2 || len(looks) < 4 {
+		r.Count("session_concurrent_lookups_skipped_one_domain", 1)
+		return
+	}
+	sr.srv.domainSearchDelay.Store(int64(2 * time.Millisecond))
+	defer sr.srv.domainSearchDelay.Store(0)
+	const G = 4
+	var wg sync.WaitGroup
+	start := make(chan struct{})
+	for g := 0; g < G; g++ {
+		wg.Add(1)
+		go func(g int) {
+			defer wg.Done()
+			<-start
+			for i := 0; i < 6 && i < len(looks); i++ {
+				l := looks[(g*5+i*(g+1))%len(looks)]
+				var got string
+				var err error
+				p, pv, st := mon.Guard(func() { got, err = sr.s.FindObjectSIDByRID(l.name, l.rid) })
+				cs := map[string]any{"call": "FindObjectSIDByRID", "domain": l.name, "rid": l.rid, "goroutines_on_the_session": G, "directory": sr.d.describe()}
+				switch {
+				case p:
+					r.Violation("ldap.Session.FindObjectSIDByRID:concurrent-callers:panic:"+mon.PanicClass(pv), fmt.Sprintf("panic %v at %s", pv, mon.TopLibFrame(st)), cs)
+				case err != nil || got != l.want:
+					r.Violation("ldap.Session.FindObjectSIDByRID:concurrent-callers", fmt.Sprintf("%d goroutines on one Session: FindObjectSIDByRID(%q, %d) = %q, %v; the directory holds that object with SID %s", G, l.name, l.rid, got, err, l.want), cs)
+				}
+			}
+		}(g)
+	}
+	close(start)
+	wg.Wait()
+	r.Eval(G * 6)
+	sr.srv.drain()
+	r.Count("session_concurrent_lookup_rounds", 1)
+}
+
 func (sr *sessionRun) getDomain(name string) {
 	var got *objects.Domain
 	var err error
@@ -796,6 +867,7 @@ func runDirectory(d *directory) {
 		}
 	}
 	sr.verifyHeld("at the end of the Session")
+	sr.concurrentLookups()
 	r.Count("session_directories", 1)
 	r.Count("session_calls", len(d.plan))
 }
